@@ -55,7 +55,7 @@ func applyOp(tr trackerT, plan Plan, op HOp, uid int) error {
 	seq := uint32(1000 + uid)
 	switch op.Kind {
 	case opLogin:
-		return tr.RemoteLogin(common.RemoteUserLogin{Source: identityEvent(op.K, plan.Pid[op.K], time.Date(2000, 1, 1, 0, 0, 0, 0, time.UTC)),
+		return tr.RemoteLogin(common.RemoteUserLogin{Source: identityEvent(op.K, plan.Pid[op.K], time.Now().UTC()),
 			PID: plan.Pid[op.K], CredUserID: "cred" + strconv.Itoa(op.K)})
 	case opRec:
 		return tr.AuditdEvent(vlib.APIEvent(plan.Sid[op.K], auparse.AUDIT_LOGIN, strconv.Itoa(plan.Pid[op.K]), ts, seq, "success"))
@@ -64,7 +64,7 @@ func applyOp(tr trackerT, plan Plan, op HOp, uid int) error {
 	case opCD:
 		return tr.AuditdEvent(vlib.APIEvent(plan.Sid[op.K], auparse.AUDIT_CRED_DISP, strconv.Itoa(plan.Pid[op.K]), ts, seq, "success"))
 	case opClean:
-		cut := time.Date(1980, 1, 1, 0, 0, 0, 0, time.UTC)
+		cut := procStart.Add(-time.Second)
 		if op.Cut == cutAll {
 			cut = time.Date(2100, 1, 1, 0, 0, 0, 0, time.UTC)
 		}
